@@ -11,9 +11,11 @@
 #    touch anything outside is a binding problem (exit 2), not a violation.
 import vf, _fileaccess as F
 
-NAMES_Q = [["d"], ["d", "x"], ["d", "x", "x"], ["x"], ["x", "s"], [".."], ["..", "s"]]
-NAMES_T = NAMES_Q + [["d", "x", "y"], ["d", "x", "y", "s"], ["."]]
-TARGETS = [["rel", ".."], ["rel", "..", ".."], ["rel", "d"], ["abs", "s"]]
+NAMES_Q = [["d"], ["d", "x"], ["d", "x", "x"], ["x"], ["x", "s"], [".."]]
+NAMES_T = NAMES_Q + [["..", "s"], ["d", "x", "y"], ["d", "x", "y", "s"], ["."]]
+NAMES_S = [["d", "x"], ["d", "x", "x"], ["x", "s"]]     # smallest alphabet containing the escape
+TARGETS_Q = [["rel", ".."], ["rel", "..", ".."], ["rel", "..", "..", "s"], ["abs", "s"]]
+TARGETS_T = TARGETS_Q + [["rel", "d"]]
 
 
 def classify(esc, devmap):
@@ -29,21 +31,22 @@ def classify(esc, devmap):
 def run(ctx):
     quick = ctx.quick()
     names = NAMES_Q if quick else NAMES_T
+    TARGETS = TARGETS_Q if quick else TARGETS_T
     maxe = 3
     # 1. the ideal design satisfies NoEscape for every archive of the bounded alphabet
     ideal = F.x_run(ctx, names, TARGETS, maxe, dev=(), emit=True, tag="MCX")
     if ideal.violated:
         raise vf.Infra("ideal FileAccess spec (part X) violates %s (specification error)" % ideal.violated)
     # 2. sensitivity: the pinned tree's lexical-only checks must be caught by TLC
-    dv = F.x_run(ctx, NAMES_Q, TARGETS, 3, dev=("DevLexicalOnly",), emit=False, expect_violation=True, tag="MCXdev")
+    dv = F.x_run(ctx, NAMES_S, TARGETS_Q[:2], 3, dev=("DevLexicalOnly",), emit=False, expect_violation=True,
+                 kinds=("file", "sym"), tag="MCXdev")
     if dv.violated != "NoEscape":
         raise vf.Infra("DevLexicalOnly not detected by NoEscape (vacuous model): %s" % dv.violated)
-    cex = [s for s in (dv.trace or {}).get("state", [])] if isinstance(dv.trace, dict) else None
     edges = list(ideal.edges)
     sim_edges = 0
     if not quick:
         # longer archives: 4 entries exhaustively over the quick alphabet, 6 entries by simulation
-        e4 = F.x_run(ctx, NAMES_Q, TARGETS, 4, dev=(), emit=True, tag="MCX4")
+        e4 = F.x_run(ctx, NAMES_Q[1:], TARGETS_Q, 4, dev=(), emit=True, tag="MCX4")
         if e4.violated:
             raise vf.Infra("ideal FileAccess spec (part X, 4 entries) violates %s" % e4.violated)
         edges += e4.edges
@@ -57,8 +60,10 @@ def run(ctx):
     # 3. replay every enumerated archive on the real UntarDirectory
     summ, mism, escapes = F.x_replay(ctx, cases)
     devmap = None
-    if escapes or mism:
-        dr = F.x_run(ctx, names, TARGETS, maxe, dev=("DevLexicalOnly",), emit=True, invs=False, tag="MCXrel")
+    if escapes:
+        # what does the deviation predict for exactly the archives that escaped on the real code?
+        dr = F.x_run(ctx, NAMES_T, TARGETS, 6, dev=("DevLexicalOnly",), emit=True, invs=False, tag="MCXrel",
+                     only=[e["arch"] for e in escapes][:400])
         devmap = {F.arch_key(e["arch"]): e for e in dr.edges}
     for esc in escapes:
         dev = classify(esc, devmap)
